@@ -70,8 +70,11 @@ func Verify[H Header[H]](trstd, untrstd H) error {
 	adjacent := untrstd.Height() == trstd.Height()+1
 	if !adjacent {
 		// if non-adjacent, we don't know if the header is *really* wrong
-		// so set as soft
-		verErr.SoftFailure = true
+		// so set as soft; on a copy, as the error belongs to the Header implementation
+		// and may be a value it hands out more than once
+		soft := *verErr
+		soft.SoftFailure = true
+		return &soft
 	}
 	// we trust adjacent verification to it's fullest
 	// if verification fails - the header is *really* wrong
